@@ -269,10 +269,10 @@ class Check:
             f["stage"] = name
         self.fails += fails
         for cat, n in summary.get("fail_categories", {}).items():
-            if n > 50000:
+            if n > 500000:
                 # more disagreements than were written out: they cannot all be matched against known findings
                 self.fails.append({"stage": name, "rec": None,
-                                   "detail": {"why": "more than 50000 disagreements in category, not all listed", "category": cat, "count": n}})
+                                   "detail": {"why": "more than 500000 disagreements in category, not all listed", "category": cat, "count": n}})
         self.stage_info[-1].update({"replayed": summary["records"], "distinct_records": summary["distinct"],
                                     "nontrivial": summary["nontrivial"], "impl_disagreements": len(fails)})
         if res.emitted != summary["records"]:
